@@ -92,6 +92,43 @@ class Parser:
         return {'kind': kind, 'vg': (vg.mdib_version, vg.sequence_id, vg.instance_id), 'parts': parts, 'raw': raw}
 
 
+class RetainedProbe:
+    """A real PeriodicReportsHandler (thread not started) receives the states of every commit; what it retains for the next
+    periodic report must keep showing the values of the version it is labelled with, whatever the application writes into the
+    objects it was handed or into the transaction results it observed."""
+
+    def __init__(self, w):
+        from sdc11073.provider.periodicreports import PeriodicReportsHandler
+        self.periodic = PeriodicReportsHandler(w.mdib, w.p.device.hosted_services, None)
+        w.p.device._periodic_reports_handler = self.periodic  # noqa: SLF001
+        self.retained = []
+        orig = self.periodic._store_for_periodic_report  # noqa: SLF001
+
+        def store(mdib_version, state_updates, destination_list):
+            orig(mdib_version, state_updates, destination_list)
+            entry = destination_list[-1]
+            self.retained.append((entry, [self.canon(s) for s in entry.states]))
+        self.periodic._store_for_periodic_report = store  # noqa: SLF001
+
+    @staticmethod
+    def canon(s):
+        v = lb.canon_value(s)
+        if isinstance(v, dict):
+            v = {k: x for k, x in v.items() if k not in ('DateAndTime', 'DeterminationTime')}   # self-updating members of the clock
+        return v
+
+    def check(self, ctx, case):
+        for entry, canon in self.retained[-30:]:
+            now = [self.canon(s) for s in entry.states]
+            if now != canon:
+                bad = [s.DescriptorHandle for s, a, b in zip(entry.states, now, canon) if a != b]
+                ctx.fail('retained-copy-changed', f'periodic store entry labelled version {entry.mdib_version}: states {bad} no longer show the published values', case)
+                break
+        ctx.count('retained-entries-checked', min(30, len(self.retained)))
+        if len(self.retained) > 400:
+            del self.retained[:200]
+
+
 class C04Hook:
     def __init__(self, ctx):
         self.ctx = ctx
@@ -115,7 +152,7 @@ class C04Hook:
             hook.retained.append((entry, [lb.canon_value(s) for s in entry.states]))
         self.periodic._store_for_periodic_report = store  # noqa: SLF001
         w.late_writes = True
-        w.scribble_results = False
+        w.scribble_results = True      # the application also writes into the transaction results it observed
 
     def before(self, w, script):
         self.before_snap = c02.norm_snap(lb.snapshot(w.mdib))
@@ -237,6 +274,11 @@ class C04Hook:
             for key, cur in snap[tab].items():
                 if prev[tab].get(key) != cur and key not in rep:
                     ctx.fail('changed-state-not-reported', f'{tab}[{key}] changed (sv {prev[tab].get(key, {}).get("sv")} -> {cur["sv"]}) but is in no report', case)
+                # a state that existed before and was changed is (also) in the episodic report of its kind: a subscriber of the
+                # state reports only must not miss it because the change came with a descriptor transaction
+                if key in prev[tab] and prev[tab][key] != cur and key in rep and rep[key][1] == 'description':
+                    ctx.fail('changed-state-not-in-episodic-report',
+                             f'{tab}[{key}] changed (sv {prev[tab][key].get("sv")} -> {cur["sv"]}) and is only in the DescriptionModificationReport', case)
             for key in rep:
                 if prev[tab].get(key) == snap[tab].get(key):
                     ctx.fail('unchanged-state-reported', f'{tab}[{key}]', case)
@@ -427,8 +469,8 @@ class _StopLoop(Exception):
     pass
 
 
-def run_collector_once(handler, before_body=None):
-    """exactly one iteration of the real `_periodic_reports_send_loop`"""
+def run_collector_once(handler, before_body=None, loop='_periodic_reports_send_loop'):
+    """exactly one iteration of the real `_periodic_reports_send_loop` (or of the fixed-interval loop)"""
     import sdc11073.provider.periodicreports as pr
     calls = [0]
 
@@ -453,7 +495,7 @@ def run_collector_once(handler, before_body=None):
     import io
     try:
         with contextlib.redirect_stdout(io.StringIO()):      # the loop prints debugging output
-            handler._periodic_reports_send_loop()  # noqa: SLF001
+            getattr(handler, loop)()
     except _StopLoop:
         pass
     finally:
@@ -900,6 +942,78 @@ def observer_interference_scenario(ctx):
             p.stop()
 
 
+def simple_periodic_scenario(ctx):
+    """The fixed-interval periodic reports: several commits of every kind inside one period (the application writes into
+    the results it observed in between), then one tick of the real `_simple_periodic_reports_send_loop`. Every periodic
+    report is labelled with the version of the newest commit it contains and carries each state as it was committed."""
+    p = lb.Provider(mdib_path=c02.MDIBS[1], start=False, role_providers=False)
+    try:
+        m = p.mdib
+        w = tx.World(p, ctx.subrng('simpleperiodic'))
+        probe = RetainedProbe(w)
+        probe.periodic._periodic_reports_interval = 1.0  # noqa: SLF001
+        committed = {}          # (handle, StateVersion) -> (MdibVersion of the commit, canonical body)
+
+        def note(kind):
+            res = m.transaction
+            for st in res.all_states():
+                key = (st.Handle if st.is_context_state else st.DescriptorHandle, st.StateVersion)
+                committed[key] = (m.mdib_version, lb.canon_value(st))
+            tx.deep_scribble(res.all_states()[0])
+            tx.undo_empty_appends()
+        for rnd in range(3):
+            for kind in ('metric', 'alert', 'component', 'operational'):
+                hs = w.states_of_kind(kind)
+                if hs:
+                    with getattr(m, f'{kind}_state_transaction')() as mgr:
+                        w.mutate_state(mgr.get_state(hs[rnd % len(hs)]), 20 + rnd)
+                    note(kind)
+            with m.context_state_transaction() as mgr:
+                w.mutate_state(mgr.mk_context_state('PC.mds0', f'sp_patient{rnd}', set_associated=False), 30 + rnd)
+            note('context')
+        newest = {}
+        for entry, _canon in probe.retained:
+            for st in entry.states:
+                k = 'context' if st.is_context_state else tx.kind_of(st)
+                newest[k] = max(newest.get(k, -1), entry.mdib_version)
+        p.take_wire()
+        run_collector_once(probe.periodic, loop='_simple_periodic_reports_send_loop')
+        problems = []
+        n_reports = 0
+        for msg in p.take_wire():
+            if 'Periodic' not in msg.short:
+                continue
+            n_reports += 1
+            root = etree.fromstring(msg.raw)
+            rep = root.find('{http://www.w3.org/2003/05/soap-envelope}Body')[0]
+            label = int(rep.get('MdibVersion', '-1'))
+            kind = {'PeriodicMetricReport': 'metric', 'PeriodicAlertReport': 'alert', 'PeriodicComponentReport': 'component',
+                    'PeriodicContextReport': 'context', 'PeriodicOperationalStateReport': 'operational'}.get(msg.short)
+            versions = []
+            for e in rep.iter():
+                if e.get('StateVersion') is not None or e.get('DescriptorHandle') is not None and e.tag.endswith('State'):
+                    key = (e.get('Handle') or e.get('DescriptorHandle'), int(e.get('StateVersion', '0')))
+                    if key in committed:
+                        versions.append(committed[key][0])
+                    else:
+                        problems.append(f'{msg.short}: state {key} was never committed like that')
+            if versions and label < max(versions):
+                problems.append(f'{msg.short} is labelled MdibVersion {label} but contains states committed at {sorted(set(versions))}')
+            if label > m.mdib_version:
+                problems.append(f'{msg.short} is labelled MdibVersion {label}, the mdib is at {m.mdib_version}')
+        probe.check(ctx, {'simple_periodic': True})
+        case = {'simple_periodic': True, 'periodic_reports': n_reports}
+        if problems:
+            ctx.fail('periodic-report-label-wrong', '; '.join(problems[:3]), case)
+        if n_reports < 4:
+            ctx.fail('periodic-scenario-not-exercised', f'{n_reports} periodic reports', case)
+        ctx.case(case, nontrivial=True)
+        ctx.count('simple-periodic-runs')
+        w.close()
+    finally:
+        p.stop()
+
+
 def filter_forms_scenario(ctx):
     """The wse:Filter of a Subscribe is an xs:list of action URIs: any white space separates them. A real consumer subscribes
     over HTTP with its filter written with newlines / tabs / several blanks; after that every report kind of committed
@@ -1115,6 +1229,7 @@ def run(ctx):
     transient_failure_scenario(ctx)
     sequence_restart_scenario(ctx)
     observer_interference_scenario(ctx)
+    simple_periodic_scenario(ctx)
 
 
 def search(ctx):
@@ -1132,6 +1247,8 @@ def replay(ctx, obj):
         wire_validity_scenario(ctx2)
     elif 'peer_failure' in case:
         peer_failure_isolation(ctx2, case['sync'])
+    elif 'simple_periodic' in case:
+        simple_periodic_scenario(ctx2)
     elif 'observer_interference' in case:
         observer_interference_scenario(ctx2)
     elif 'two_writers' in case:
